@@ -82,4 +82,147 @@ def fromRoots (c : Ctx) (o : Ops α) (roots : List α) : Option (List α) :=
       some ((top ++ [o.one]).drop (top.length - roots.length))
     | _ => none
 
+
+/-! ### multipoint evaluation -/
+
+/-- one level of the remainder tree: every block (the `2k` scaled coefficients of `P/(Q1·Q2)`,
+`deg Q1 = deg Q2 = k`) is replaced by the blocks of `P/Q1` (`_middlemul_xn` by `Q2`) and of `P/Q2`
+(`_middlemul_xn` by `Q1`); `layer` lists the low coefficients of the children -/
+def splitLevel (c : Ctx) (o : Ops α) (tmplen : Nat) : List (List α) → List (List α) → Option (List (List α))
+  | blk :: bs, q1 :: q2 :: qs =>
+    match middlemulXn c o q1.length blk q2 tmplen, middlemulXn c o q1.length blk q1 tmplen,
+        splitLevel c o tmplen bs qs with
+    | some d1, some d2, some rest => some (d1 :: d2 :: rest)
+    | _, _, _ => none
+  | [], _ => some []
+  | _ :: _, _ => none                                               -- &layer[idx1..idx2]
+
+/-- the loop `for i in 1..=logn` over the layers below the top, from the top down -/
+def splitAll (c : Ctx) (o : Ops α) (tmplen : Nat) : List (List (List α)) → List (List α) → Option (List (List α))
+  | [], blocks => some blocks
+  | layer :: below, blocks =>
+    match splitLevel c o tmplen blocks layer with
+    | none => none
+    | some bl => splitAll c o tmplen below bl
+
+/-- `Poly::_multi_eval(&self, tree)`: the values of `p` at the leaves of `tree` (all `n` of them,
+padding included) -/
+def multiEvalTree (c : Ctx) (o : Ops α) (p : List α) (layers : List (List (List α))) : Option (List α) :=
+  if p.length = 0 then none                                         -- self.c.len() - 1
+  else
+    match layers.reverse with
+    | [top] :: below =>
+      let n := top.length
+      if layers.length ≠ n.log2 + 1 then none                       -- assert_eq!(layers.len(), logn + 1)
+      else
+        let degp := p.length - 1
+        let q := top ++ [o.one]
+        let revp := (List.range (n + 1)).map fun i => if i ≤ degp then p.getD (degp - i) o.zero else o.zero
+        let revq := (List.range (n + 1)).map fun i => q.getD (n - i) o.zero
+        match divModXn c o revp revq (10 * n) with
+        | none => none
+        | some dst =>
+          if 2 * n ≤ degp then none                                   -- node[i], i ≤ degp
+          else
+            -- node[i] = dst[degp - i] (dst has 2n entries, the quotient in the first n + 1)
+            let node := (List.range n).map fun i => if i ≤ degp then dst.getD (degp - i) o.zero else o.zero
+            match splitAll c o (10 * n) below [node] with
+            | none => none
+            | some blocks => some (blocks.map fun b => b.getD 0 o.zero)
+    | _ => none
+
+/-- `slice.chunks(k)` -/
+def chunks : Nat → Nat → List α → List (List α)
+  | 0, _, _ => []
+  | _ + 1, _, [] => []
+  | f + 1, k, l => l.take k :: chunks f k (l.drop k)
+
+/-- `Poly::multi_eval(&self, a)` -/
+def multiEval (c : Ctx) (o : Ops α) (p a : List α) : Option (List α) :=
+  if p.length = 0 ∨ a.length = 0 then none                          -- plen - 1, alen - 1
+  else
+    let n := 2 ^ Ymq.Checked.bitlen (p.length - 1)
+    let nchunks := (a.length - 1) / n + 1
+    let chunklen := (a.length - 1) / nchunks + 1
+    if a.length > nchunks * chunklen then none                       -- assert!
+    else
+      (chunks a.length chunklen a).foldlM (fun (vals : List α) chk =>
+        match productTree c o chk with
+        | none => none
+        | some tree =>
+          match multiEvalTree c o p tree with
+          | none => none
+          | some vs => some (vals ++ vs.take chk.length)) []
+
+/-- `p` reduced by the monic `q` of the same length when its top coefficient is non-zero:
+`resize(1 + n)`, `if c[n] != 0 { c -= q; assert!(c[n] == 0) }`, `truncate(n)` -/
+def reduceTop (o : Ops α) (n : Nat) (pc q : List α) : Option (List α) :=
+  let c := pc ++ List.replicate (n + 1 - pc.length) o.zero
+  if c.length ≠ n + 1 then none
+  else if !(o.eq (c.getD n o.zero) o.zero) then
+    match zipOp o.sub c q with
+    | none => none
+    | some c' => if o.eq (c'.getD n o.zero) o.zero then some (c'.take n) else none
+  else some (c.take n)
+
+/-- `Poly::roots_eval(zn, a, b)`: the values of `∏ (x - a_i)` at the points `b_j` -/
+def rootsEval (o : Ops α) (a b : List α) : Option (List α) :=
+  let c := Ctx.new b.length
+  match productTree c o b with
+  | none => none
+  | some tree =>
+    match tree.getLast? with
+    | some [top] =>
+      let n := top.length
+      let vals : Option (List α) :=
+        if a.length < n then
+          match fromRoots c o a with
+          | none => none
+          | some p => multiEvalTree c o p tree
+        else
+          -- ∏ (x - a_i) modulo Q = ∏ (x - b_j), chunk by chunk, with a precomputed inverse of rev(Q)
+          let q := top ++ [o.one]
+          let revq := (List.range (n + 1)).map fun i => if i < n then q.getD (n - i) o.zero else o.zero
+          match invModXn c o FUEL revq (6 * n) with
+          | none => none
+          | some qinv =>
+            if !(o.eq (revq.getD 0 o.zero) o.one) then none          -- assert!(revq[0] == zn.one())
+            else
+              let qinvr := qinv.reverse
+              match chunks a.length n a with
+              | [] => none                                         -- achunks.next().unwrap()
+              | c0 :: cs =>
+                match fromRoots c o c0 with
+                | none => none
+                | some p0 =>
+                  match reduceTop o n p0 q with
+                  | none => none
+                  | some pm0 =>
+                    match cs.foldlM (fun (pmodq : List α) chk =>
+                        match fromRoots c o chk with
+                        | none => none
+                        | some pi0 =>
+                          match reduceTop o n pi0 q with
+                          | none => none
+                          | some pic =>
+                            match longmul c o (2 * n) (6 * n) pic pmodq with
+                            | none => none
+                            | some pp =>
+                              match longmul c o (2 * n) (6 * n) (pp.drop n) (qinvr.drop 1) with
+                              | none => none
+                              | some quo =>
+                                match longmul c o (2 * n) (6 * n) ((quo.drop (n - 1)).take (n - 1)) q with
+                                | none => none
+                                | some pq =>
+                                  -- debug_assert!(pp[n..] == pq[n..])
+                                  if !((List.range n).all fun i =>
+                                      o.eq (pp.getD (n + i) o.zero) (pq.getD (n + i) o.zero)) then none
+                                  else zipOp o.sub (pp.take n) (pq.take n)) pm0 with
+                    | none => none
+                    | some pmodq => multiEvalTree c o pmodq tree
+      match vals with
+      | none => none
+      | some vs => if vs.length < b.length then none else some (vs.take b.length)
+    | _ => none
+
 end Ymq.PolyMul
